@@ -79,6 +79,19 @@ impl TinyLFU {
     }
 }
 
+#[cfg(feature = "verif")]
+impl TinyLFU {
+    pub(crate) fn verif_total_increments(&self) -> u64 { self.total_increments }
+
+    pub(crate) fn verif_door_keeper_has(&self, key_hash: &KeyHash) -> bool { self.door_keeper.has(key_hash) }
+
+    pub(crate) fn verif_sketch_estimate(&self, key_hash: KeyHash) -> FrequencyEstimate { self.key_access_frequency.estimate(key_hash) }
+
+    pub(crate) fn verif_matrix(&self) -> Vec<Vec<u8>> { self.key_access_frequency.verif_matrix() }
+
+    pub(crate) fn verif_seeds(&self) -> [u64; 4] { self.key_access_frequency.verif_seeds() }
+}
+
 #[cfg(test)]
 mod tests {
     use crate::cache::lfu::tiny_lfu::TinyLFU;
